@@ -77,7 +77,7 @@ theorem node1Allocs_cost (n : Node1 W) : allocCost (node1Allocs n) ≤ node1Size
   split
   · simp only [allocCost_cons, entryListAlloc, entryListSize]
     cases h : n.next with
-    | none => simp [allocCost_nil, alEntry, kAllocPadding]; omega; omega
+    | none => simp [allocCost_nil, alEntry, kAllocPadding]; omega
     | some t =>
       have := trunk2Allocs_cost t
       simp only [alEntry, kAllocPadding] at this ⊢
@@ -141,11 +141,6 @@ end
 
 /-! ### the arena under a request list -/
 
-/-- no `Allocate` of the list has to grow the file -/
-def NeverGrows (a : Arena) : List (Nat × Nat) → Prop
-  | [] => True
-  | (al, sz) :: rest => (allocate a al sz).1.capacity = a.capacity ∧ NeverGrows (allocate a al sz).1 rest
-
 theorem allocate_size_le (a : Arena) (al sz : Nat) (hal : 0 < al) :
     (allocate a al sz).1.size ≤ a.size + (al - 1 + sz) := by
   have := alignUp_lt al a.size hal
@@ -184,6 +179,13 @@ theorem allocateAll_wf : ∀ (l : List (Nat × Nat)) (a : Arena), a.WF → (allo
   | (al, sz) :: rest, a, h => by
     have hc := le_newCapacity a (alignUp al a.size + sz)
     exact allocateAll_wf rest _ ⟨allocate_bytes_length a h al sz, by simp only [allocate]; exact hc.2⟩
+
+theorem allocateAll_size : ∀ (l : List (Nat × Nat)) (a : Arena), (allocateAll a l).size = allocEnd a.size l
+  | [], _ => rfl
+  | (al, sz) :: rest, a => by
+    simp only [allocateAll, allocEnd]
+    rw [allocateAll_size rest]
+    rfl
 
 theorem create_wf (cap : Nat) : (create cap).WF := by simp [create, Arena.WF]
 
